@@ -33,9 +33,9 @@ import (
 )
 
 type Scn struct {
-	Send    string `json:"send"`    // v1 | v2
-	Recv    string `json:"recv"`    // none | v1-tcp4 | v1-tcp6 | v2-tcp4 | v2-tcp6 | v2-udp4 | v1-unknown | v2-local
-	Client  string `json:"client"`  // socket address of the client "ip:port"
+	Send    string `json:"send"`   // v1 | v2
+	Recv    string `json:"recv"`   // none | v1-tcp4 | v1-tcp6 | v2-tcp4 | v2-tcp6 | v2-udp4 | v1-unknown | v2-local
+	Client  string `json:"client"` // socket address of the client "ip:port"
 	Payload int    `json:"payload"`
 	Peers   int    `json:"peers"`
 }
@@ -309,11 +309,11 @@ func bounds(tier string) (explore.Bounds, int) {
 
 func main() {
 	runner.Main(&runner.Harness{
-		ID:    "C12",
-		Level: "model_checking",
-		Rule: "proxy handler configured to send PROXY v1 or v2 x client over IPv4/IPv6 x an optional PROXY header received first by the real receiving handler {none, v1 TCP4/TCP6/UNKNOWN, v2 TCP4/TCP6/UDP4/LOCAL} x payload {0,5,3000} x 1-2 peers; what each upstream receives is decoded by an independent parser written from the HAProxy specification; interleavings within the delay budget (2 quick, 3 thorough)",
+		ID:          "C12",
+		Level:       "model_checking",
+		Rule:        "proxy handler configured to send PROXY v1 or v2 x client over IPv4/IPv6 x an optional PROXY header received first by the real receiving handler {none, v1 TCP4/TCP6/UNKNOWN, v2 TCP4/TCP6/UDP4/LOCAL} x payload {0,5,3000} x 1-2 peers; what each upstream receives is decoded by an independent parser written from the HAProxy specification; interleavings within the delay budget (2 quick, 3 thorough)",
 		Assumptions: []string{"with v1 UNKNOWN / v2 LOCAL received, the client's effective addresses are the socket's"},
-		Scenarios: scenarios,
+		Scenarios:   scenarios,
 		Run: func(tier string, scAny any, rep *runner.Report) {
 			sc := scAny.(*Scn)
 			b, tot := bounds(tier)
